@@ -147,3 +147,20 @@ Theorem C04_r1cs_builder_complete :
     (forall j o, nth_error outs j = Some o -> w (S (nbpub + j)) = nth o fin zero).
 Proof. exact compile_complete. Qed.
 Print Assumptions C04_r1cs_builder_complete.
+
+(* ToBinary (BuilderR1CSBits.v, tied to the code like the core): under every assignment satisfying the emitted
+   rows the digits are boolean and recompose to the operand in the field (the reducedness half is LeqCst.v's
+   statement about the MustBeLessOrEqCst rows, C04_leq_cst above) *)
+From GnarkV Require Import Frontend.BuilderR1CSBits Frontend.BuilderR1CSBitsProps.
+Theorem C04_r1cs_tobinary_sound :
+  forall (F : Type) (zero one : F) (add mul sub : F -> F -> F) (opp : F -> F) (div : F -> F -> F) (inv : F -> F),
+  field_theory zero one add mul sub opp div inv (@eq F) ->
+  forall (eq_dec : forall x y : F, {x = y} + {x <> y}) (cst : Z -> F),
+  cst 0%Z = zero -> cst 1%Z = one ->
+  forall (fbl : nat) (qm1 : Z) (st : bstate F) (v : lexp F) (n : nat) (omit : bool) (bits : list (lexp F)) (st' : bstate F),
+  b_tobinary F zero one add mul opp eq_dec cst fbl qm1 st v n false omit = (bits, st') ->
+  BuilderR1CSProps.mstep F zero one add mul st st'
+    (fun w => Forall (fun d => Gadgets.is_bool F zero one (BuilderR1CSProps.ev F zero add mul w d)) bits /\
+              BuilderR1CSProps.fbv F zero add mul cst w 1%Z bits = BuilderR1CSProps.ev F zero add mul w v).
+Proof. intros F zero one add mul sub opp div inv Fth eq_dec cst c0 c1. exact (tobinary_sound F zero one add mul sub opp div inv Fth eq_dec cst c0 c1). Qed.
+Print Assumptions C04_r1cs_tobinary_sound.
